@@ -72,5 +72,30 @@ pub fn verif_parse_coloured<'b>(raw_line: &'b str) -> (r: Option<GrepLine<'b>>) 
 //@rewriteall <<<self.line.clone()>>> => <<<line_in>>>
 //@rewriteall <<<return Ok(false);>>> => <<<return None;>>>
 
+// handle_grep_line: the language of a hit is the one of ITS file: it is looked up before the highlighter is made
+#[verifier::external_body]
+pub struct Painter { _p: u8 }
+impl Painter {
+    /// ghost: the language has been looked up for the path of the line being handled
+    pub uninterp spec fn language_is_of_this_path(&self) -> bool;
+    #[verifier::external_body]
+    pub fn set_syntax(&mut self, filename: Option<&str>) ensures final(self).language_is_of_this_path() { unimplemented!() }
+    #[verifier::external_body]
+    pub fn set_highlighter(&mut self) ensures final(self).language_is_of_this_path() == old(self).language_is_of_this_path() { unimplemented!() }
+}
+pub struct StateMachine { pub painter: Painter }
+/// (R3) `Some(grep_line.path.as_ref())`
+#[verifier::external_body]
+pub fn verif_path_of<'a>(grep_line: &'a GrepLine<'a>) -> (r: Option<&'a str>) ensures r is Some { unimplemented!() }
+impl StateMachine {
+    //@ region src/handlers/grep.rs StateMachine::handle_grep_line
+    //@sig pub fn grep_language_region<'b>(&mut self, new_path: bool, new_section: bool, grep_line: &'b GrepLine<'b>)
+    //@fromafter <<<&& line_number_jump;>>>
+    //@until <<<self.state = State::Grep(>>>
+    //@| requires new_path ==> !old(self).painter.language_is_of_this_path(),
+    //@rewrite <<<Some(grep_line.path.as_ref())>>> => <<<verif_path_of(grep_line)>>>
+    //@before <<<self.painter.set_highlighter()>>>| assert(/* @C15,C16:the.hits.of.a.file.are.highlighted.in.the.language.of.that.file.it.is.looked.up.before.the.highlighter.is.made */ new_path ==> self.painter.language_is_of_this_path());
+}
+
 } // verus!
 fn main() {}
